@@ -372,7 +372,14 @@ def _h_ctx_ops(sx):
 def h_cleanup_runs(sx):
     registered = []     # (key, owner eid or None for testrun, layer)
 
+    seen_tags = []
+
     def probe(w, name, context, args):
+        if name in ("after_rule", "after_feature"):
+            # behave's own scoped attribute: after a rule / feature ends its hooks still see that element's tags
+            seen_tags.append((name, w._label(args[0]), sorted(context.tags) if "tags" in context else None, sorted(str(t) for t in args[0].tags)))
+        if name == "after_all":
+            seen_tags.append((name, None, sorted(context.tags) if "tags" in context else None, None))
         if name in ("before_all", "before_feature", "before_rule", "before_scenario"):
             owner = None if name == "before_all" else w._label(args[0])
             key = "%s@%s" % (name, owner)
@@ -392,6 +399,9 @@ def h_cleanup_runs(sx):
     sx.check(w.escaped is None, "C13.run.no-exception-escapes", detail=lambda m: repr(w.escaped))
     if w.escaped is not None:
         return w.observable()
+    for (hook_, who_, got_, want_) in seen_tags:
+        sx.check(got_ == want_, "C13.run.context-tags-scoped-to-feature-and-rule",
+                 detail=lambda m, hook_=hook_, who_=who_, got_=got_, want_=want_: {"hook": hook_, "element": who_, "context.tags": got_, "expected": want_})
     layer = w.opts.get("cleanup_layer")
     by_id = {}
     for rd in w.rendered:
@@ -613,7 +623,7 @@ def jobs(tier, seed):
                       reach=REACH_OPS, min_paths=50, cost=2000, validate=40, max_paths=400000, closure=False))
     runs = {
         "sc-layer": ([F([S(2, tags=["t1", "t2"]), S(1)])], {"out_dom": {"*": [5, 6]}}),
-        "feature-layer": ([F([S(1), R([S(1)])])], {"out_dom": {"*": [6, 6]}, "cleanup_layer": "feature"}),
+        "feature-layer": ([F([S(1), R([S(1)], tags=["rt"])], tags=["ft"])], {"out_dom": {"*": [6, 6]}, "cleanup_layer": "feature"}),
         "testrun-layer": ([F([S(1)]), F([S(1)])], {"out_dom": {"*": [6, 6]}, "cleanup_layer": "testrun"}),
         "hook-skip": ([F([S(1), S(1)])], {"out_dom": {"*": [6, 6]}, "hook_skip_scenario": True, "undef": False}),
         "shared-feature-layer": ([F([S(1), S(2), S(1)])], {"out_dom": {"*": [5, 6]}, "cleanup_layer": "feature", "cleanup_shared": True}),
